@@ -95,7 +95,7 @@ Proof.
                  (holder_ctx h' = [] /\ filter (fun c => negb (nat_mem c (holder_ctx h'))) (holder_ctx h) = holder_ctx h)).
   { intros Eg. right. split; [exact Eg|]. rewrite Eg.
     destruct h as [|tm|[[tm|]]]; reflexivity. }
-  destruct o as [s c|c| |e pl orc b|e pl orc b|x v|x v|x v|s| |]; try discriminate; cbn [step_core] in E.
+  destruct o as [s c|c| |e pl orc b|e pl orc b|x v|x v|x v|s| | |e pl]; try discriminate; cbn [step_core] in E.
   - destruct h as [|tm|dd]; try (inversion E; subst; apply Keep; reflexivity).
     destruct (methods_of g (tm_state tm) (to_snake_case e)) as [|gm [|gm2 rr]] eqn:Em;
       try (inversion E; subst; apply Keep; reflexivity).
@@ -136,6 +136,10 @@ Proof.
   - destruct h as [|tm|dd]; try (inversion E; subst; apply Keep; reflexivity).
     destruct (gr_dyn g); inversion E; subst; apply Keep; reflexivity.
   - inversion E; subst. apply Gone. reflexivity.
+  - destruct h as [|tm|dd]; try (inversion E; subst; apply Keep; reflexivity).
+    + destruct (methods_of g (tm_state tm) (to_snake_case e)) as [|gm [|gm2 rr]]; try (inversion E; subst; apply Keep; reflexivity).
+      destruct (gm_async gm); inversion E; subst; [apply Gone|apply Keep]; reflexivity.
+    + destruct (gr_dyn g); [destruct (gir_async g)|]; inversion E; subst; apply Keep; reflexivity.
 Qed.
 
 End H.
